@@ -460,6 +460,7 @@ type Run struct {
 	// compare the keyper's in-memory DKG state with the puredkg rows (C08)
 	checkPersisted  bool
 	persistProblems []string
+	phaseProblems   []string // "every eon enters its phase with the block" (see phaseVsHeight)
 	// hooks for C08
 	StepHook   func(r *Run, n *Node, budget int) error // replaces n.step if set
 	AfterBlock func(r *Run, closed int64)
@@ -573,6 +574,9 @@ func (r *Run) stepNode(n *Node, budget int) {
 		err = n.step(r.ctx, r.curL1(), budget)
 	}
 	if err == nil {
+		if d := phaseVsHeight(n, r.sc.L); d != "" && len(r.phaseProblems) < 5 {
+			r.phaseProblems = append(r.phaseProblems, fmt.Sprintf("k%d after its iteration at open height %d: %s", n.Pos, r.chain.OpenHeight(), d))
+		}
 		if r.checkPersisted {
 			if d := persistedVsMemory(n); d != "" && len(r.persistProblems) < 5 {
 				r.persistProblems = append(r.persistProblems, fmt.Sprintf("k%d after its iteration at open height %d (applied blocks up to %d): %s", n.Pos, r.chain.OpenHeight(), n.syncedTo(), d))
@@ -1261,6 +1265,9 @@ func (r *Run) checkAgreement(fail failFn, derived bool) (agreeStats, *refRecord)
 	if len(r.chain.Divergence) > 0 {
 		fail("replica-diverged", "shuttermint replicas disagree: %v\n%s", r.chain.Divergence, hist())
 	}
+	if len(r.phaseProblems) > 0 {
+		fail("eon-phase-lags-block", "the phase of a key generation is a function of the block height and the eon's start height, applied before the block's events; after a completed iteration an honest keyper's DKG is in another phase than the last block it applied demands: %v\n%s", r.phaseProblems, hist())
+	}
 	if len(r.keyperPanics) > 0 {
 		fail("keyper-panic", "an honest keyper's main loop panicked: %v\n%s", r.keyperPanics, hist())
 	}
@@ -1599,4 +1606,46 @@ func (r *Run) switchToSecondEon() {
 	r.sc.Order, r.sc.Byz, r.nodes, r.addrs = order2, byzS, nodes, addrs
 	r.h0, r.eon = r.h1, r.eon2
 	r.h1, r.eon2 = r.first0, r.firstEon
+}
+
+// phaseVsHeight: for every key generation a keyper has in memory, the phase
+// must be the one that follows from the height of the last block it applied,
+// the eon's start height and the phase length (a finished one must be gone).
+// "" if the cache is not loaded or everything is in step.
+func phaseVsHeight(n *Node, L int64) string {
+	synced, mem := memoryDKG(n.State)
+	if !synced || len(mem) == 0 {
+		return ""
+	}
+	h := n.syncedTo()
+	start := map[uint64]int64{}
+	for _, row := range n.Srv.Rows("eons") {
+		start[uint64(row["eon"].(int64))] = row["height"].(int64)
+	}
+	var eons []uint64
+	for e := range mem {
+		eons = append(eons, e)
+	}
+	sort.Slice(eons, func(i, j int) bool { return eons[i] < eons[j] })
+	for _, e := range eons {
+		s, ok := start[e]
+		if !ok {
+			return fmt.Sprintf("eon %d is in memory without an eons row", e)
+		}
+		want := puredkg.Finalized
+		switch d := h - s; {
+		case d < 0:
+			want = puredkg.Off
+		case d < L:
+			want = puredkg.Dealing
+		case d < 2*L:
+			want = puredkg.Accusing
+		case d < 3*L:
+			want = puredkg.Apologizing
+		}
+		if got := mem[e].Phase; got != want || want == puredkg.Finalized {
+			return fmt.Sprintf("eon %d (started at height %d, phase length %d): last applied block %d demands phase %v, the keyper's DKG is in phase %v", e, s, L, h, want, got)
+		}
+	}
+	return ""
 }
